@@ -292,7 +292,10 @@ func (g *globalTaint) solve() {
 	}
 }
 
-var externalReadOnly = []string{"fmt.", "errors.", "strings.", "strconv.", "bytes.Equal", "crypto/hmac.Equal", "crypto/subtle.", "encoding/hex.", "github.com/prometheus/client_golang/", "(*github.com/prometheus/client_golang/", "(github.com/prometheus/client_golang/", "github.com/google/gopacket.RegisterLayerType", "github.com/google/gopacket/layers.RegisterRMCPLayerType", "(time.Time).", "(time.Duration).", "(github.com/google/gopacket.LayerType).", "(github.com/google/gopacket/layers.RMCPClass)."}
+var externalReadOnly = []string{"fmt.", "errors.", "strings.", "strconv.", "bytes.Equal", "crypto/hmac.Equal", "crypto/subtle.", "encoding/hex.", "github.com/prometheus/client_golang/", "(*github.com/prometheus/client_golang/", "(github.com/prometheus/client_golang/", "github.com/google/gopacket.RegisterLayerType", "github.com/google/gopacket/layers.RegisterRMCPLayerType", "(time.Time).", "(time.Duration).", "(github.com/google/gopacket.LayerType).", "(github.com/google/gopacket/layers.RMCPClass).",
+	// readers of the standard library's generic slice and map helpers (they do not write
+	// through their argument; slices.Sort, Reverse, Insert, Delete… are not listed)
+	"slices.Index", "slices.Contains", "slices.Equal", "slices.Compare", "slices.Max", "slices.Min", "slices.BinarySearch", "slices.Clone", "slices.Values", "slices.All", "maps.Keys", "maps.Values", "maps.All", "maps.Clone", "maps.Equal"}
 
 func checkC19(c *Ctx, r *Report) {
 	r.Explain = "Ownership argument for independent connections: an interprocedural may-alias taint computes every SSA value in the library that can point into memory owned by a package-level variable of the module (addresses of globals, loaded pointer/slice/map globals, field/element addresses, values returned through Operation()/Descriptor()-style accessors, values stored into fields and loaded back, closure bindings; dynamic calls resolved to all module implementations). A violation is (a) any store, map update, copy-destination, append base or delete through such a value outside package initialisers and the one documented registration function, (b) such a value passed to a function outside the module that is not known to be read-only or internally synchronised, or (c) such a pointer stored into a per-connection object. With the facts that the library starts no goroutines and uses no other shared state (C13 census), connections that share no objects cannot race."
